@@ -10,6 +10,8 @@ a semantics-preserving rewrite of the syntax tree (node positions are kept, so r
   K6 cond. assign  `if C: x = A else: x = B` -> `x = A if C else B`
   K8 arguments     `f(a, y=b)` -> `f(a, b)` for package functions called by plain name or through self./cls.
                    when the keywords continue the declared parameter order
+  K9 new helpers   a private module-level function the reference tree does not have, called once at statement
+                   level, is substituted into its caller (parameters bound to fresh locals)
   K3 temp return   `t = E` immediately followed by `return t`, t used nowhere else  ->  `return E`
   K4 local names   consistent renaming of function-local names back to the names they have in the reference table
                    (sa/local_names.json: for every function the sequence of its bindings, each described WITHOUT
@@ -632,6 +634,149 @@ def rename_locals(fn, plan: list[tuple[ast.AST, str, str]]) -> list[tuple[str, s
     return applied
 
 
+# ------------------------------------------------------------------ K9: helpers that the reference tree does not know
+def _eligible_helper(d: ast.FunctionDef) -> bool:
+    """A module-level private function that can be substituted at its call site: no decorators, plain positional
+    parameters, no yield / nested definitions / global, and `return` only as its very last statement."""
+    a = d.args
+    if d.decorator_list or a.vararg or a.kwarg or a.kwonlyargs or a.posonlyargs:
+        return False
+    body = list(d.body)
+    if body and isinstance(body[0], ast.Expr) and isinstance(body[0].value, ast.Constant) and isinstance(body[0].value.value, str):
+        body = body[1:]
+    if not body:
+        return False
+    for n in ast.walk(d):
+        if n is d:
+            continue
+        if isinstance(n, (ast.FunctionDef, ast.AsyncFunctionDef, ast.ClassDef, ast.Lambda, ast.Yield, ast.YieldFrom, ast.Await,
+                          ast.Global, ast.Nonlocal)):
+            return False
+    returns = [n for n in ast.walk(d) if isinstance(n, ast.Return)]
+    if len(returns) > 1 or (returns and returns[0] is not body[-1]):
+        return False
+    return True
+
+
+def _inline_unknown_helpers(tree: ast.Module, modname: str, known: set[str], log: Optional[list]) -> None:
+    """A private module-level function that the reference tree does not have, with exactly one call site (in this
+    module, at statement level), is substituted into its caller: code that was moved into a new helper is analysed
+    where it came from.  Parameters become fresh locals bound to the arguments; the helper's locals get a suffix."""
+    defs = {n.name: n for n in tree.body if isinstance(n, ast.FunctionDef) and n.name.startswith("_")
+            and f"{modname}.{n.name}" not in known and _eligible_helper(n)}
+    if not defs:
+        return
+    uses: dict[str, list] = {k: [] for k in defs}
+    for n in ast.walk(tree):
+        if isinstance(n, ast.Name) and n.id in uses and isinstance(n.ctx, ast.Load):
+            uses[n.id].append(n)
+    import copy
+    for name, d in defs.items():
+        if len(uses[name]) != 1:
+            continue
+        use = uses[name][0]
+        # find the statement and its container
+        done = False
+        for owner in ast.walk(tree):
+            if done:
+                break
+            if owner is d or any(owner is x for x in ast.walk(d)):
+                continue
+            for field in ("body", "orelse", "finalbody"):
+                stmts = getattr(owner, field, None)
+                if not (isinstance(stmts, list) and stmts and isinstance(stmts[0], ast.stmt)):
+                    continue
+                for idx, st in enumerate(stmts):
+                    call = None
+                    if isinstance(st, ast.Expr) and isinstance(st.value, ast.Call):
+                        call = st.value
+                    elif isinstance(st, (ast.Assign, ast.Return)) and isinstance(st.value, ast.Call):
+                        call = st.value
+                    elif isinstance(st, ast.AugAssign) and isinstance(st.value, ast.Call):
+                        call = st.value
+                    if call is None or call.func is not use:
+                        continue
+                    params = [p.arg for p in d.args.args]
+                    if call.keywords and any(k.arg is None or k.arg not in params for k in call.keywords):
+                        continue
+                    if any(isinstance(x, ast.Starred) for x in call.args) or len(call.args) > len(params):
+                        continue
+                    bound: dict[str, ast.AST] = {}
+                    for i, a in enumerate(call.args):
+                        bound[params[i]] = a
+                    for k in call.keywords:
+                        bound[k.arg] = k.value
+                    defaults = d.args.defaults
+                    for i, pn in enumerate(params):
+                        if pn not in bound:
+                            di = i - (len(params) - len(defaults))
+                            if di < 0:
+                                bound = None
+                                break
+                            bound[pn] = defaults[di]
+                    if bound is None:
+                        continue
+                    suffix = "__" + name.strip("_")
+                    body = copy.deepcopy(d.body)
+                    if body and isinstance(body[0], ast.Expr) and isinstance(body[0].value, ast.Constant) and isinstance(body[0].value.value, str):
+                        body = body[1:]
+                    stored = {n.id for b in body for n in ast.walk(b) if isinstance(n, ast.Name) and isinstance(n.ctx, (ast.Store, ast.Del))}
+                    stored |= {h.name for b in body for h in ast.walk(b) if isinstance(h, ast.ExceptHandler) and h.name}
+                    pre: list[ast.stmt] = []
+                    subst: dict[str, ast.AST] = {}
+                    for pn in params:
+                        arg = bound[pn]
+                        if isinstance(arg, (ast.Name, ast.Constant)) and pn not in stored:
+                            subst[pn] = arg
+                        else:
+                            pre.append(ast.copy_location(ast.Assign(targets=[ast.Name(id=pn + suffix, ctx=ast.Store())], value=arg), st))
+                            subst[pn] = ast.Name(id=pn + suffix, ctx=ast.Load())
+                            stored.discard(pn)
+                    local_names = stored - set(params)
+
+                    class Ren(ast.NodeTransformer):
+                        def visit_Name(self, n):
+                            if n.id in subst and isinstance(n.ctx, ast.Load):
+                                return copy.deepcopy(subst[n.id])
+                            if n.id in subst and isinstance(subst[n.id], ast.Name):
+                                return ast.copy_location(ast.Name(id=subst[n.id].id, ctx=n.ctx), n)
+                            if n.id in local_names:
+                                return ast.copy_location(ast.Name(id=n.id + suffix, ctx=n.ctx), n)
+                            return n
+
+                        def visit_ExceptHandler(self, n):
+                            self.generic_visit(n)
+                            if n.name in local_names:
+                                n.name = n.name + suffix
+                            return n
+
+                    body = [Ren().visit(b) for b in body]
+                    tail: list[ast.stmt] = []
+                    ret = body[-1] if body and isinstance(body[-1], ast.Return) else None
+                    if ret is not None:
+                        body = body[:-1]
+                        val = ret.value if ret.value is not None else ast.Constant(None)
+                    else:
+                        val = ast.Constant(None)
+                    if isinstance(st, ast.Expr):
+                        if not isinstance(val, (ast.Constant, ast.Name)):
+                            tail = [ast.copy_location(ast.Expr(value=val), st)]
+                    elif isinstance(st, ast.Assign):
+                        tail = [ast.copy_location(ast.Assign(targets=st.targets, value=val), st)]
+                    elif isinstance(st, ast.AugAssign):
+                        tail = [ast.copy_location(ast.AugAssign(target=st.target, op=st.op, value=val), st)]
+                    else:
+                        tail = [ast.copy_location(ast.Return(value=val), st)]
+                    stmts[idx:idx + 1] = pre + body + tail
+                    tree.body = [x for x in tree.body if x is not d]
+                    if log is not None:
+                        log.append((f"{modname}.{name}", "inlined into its only caller"))
+                    done = True
+                    break
+                if done:
+                    break
+
+
 # ------------------------------------------------------------------ driver
 def functions_of(tree: ast.Module, modname: str):
     """(qualified name, node) in the indexing scheme of model.Repo."""
@@ -650,8 +795,11 @@ def functions_of(tree: ast.Module, modname: str):
 
 def canonicalise(tree: ast.Module, modname: str, log: Optional[list] = None) -> ast.Module:
     tree = _Shape().visit(tree)
-    _positionalise(tree)
     table = ref_table()
+    known = set(table.get("__functions__", []))
+    if known:
+        _inline_unknown_helpers(tree, modname, known, log)
+    _positionalise(tree)
     fns = list(functions_of(tree, modname))
     # innermost first, so that a nested function is settled before its parent is renamed
     for q, fn in reversed(fns):
@@ -659,7 +807,7 @@ def canonicalise(tree: ast.Module, modname: str, log: Optional[list] = None) -> 
         if not _NO_K7:
             _inline_single_use_temps(fn)
         ref = table.get(q)
-        if ref:
+        if ref and q != "__functions__":
             applied = rename_locals(fn, align(bindings(fn), ref))
             if applied and log is not None:
                 log.append((q, applied))
@@ -684,6 +832,7 @@ def make_table(repo_src: Path) -> dict:
             if not _NO_K7:
                 _inline_single_use_temps(fn)
         for q, fn in functions_of(tree, modname):
+            out.setdefault("__functions__", []).append(q)
             b = bindings(fn)
             if b:
                 out[q] = [[d, w, n] for d, w, n, _ in b]
